@@ -14,7 +14,7 @@ import subprocess
 import sys
 import time
 
-VERIF = "/verif"
+VERIF = os.environ.get("VERIF_ROOT") or os.path.dirname(os.path.dirname(os.path.abspath(__file__)))
 SPEC = VERIF + "/spec"
 HARNESS = VERIF + "/harness"
 JAR_CP = "/opt/veriftools/tla/tla2tools.jar:/opt/veriftools/tla/CommunityModules-deps.jar"
@@ -99,7 +99,7 @@ class Ctx:
                     "-metadir", wd + "/meta", "-cleanup", "-noGenerateSpecTE"]
 
     def tlc_mc(self, name, module, cfg=None, cfg_text=None, workers=8, timeout=1800, heap="8g", env=None,
-               count=True, want_output=False):
+               count=True, want_output=False, coverage=False):
         """Model-check module (in spec/mc or spec/gen) with a cfg file or cfg text. Raises ToolError if TLC
         reports anything but success: a failing lemma of the specification itself is a defect of the
         machinery, not of the code."""
@@ -111,7 +111,7 @@ class Ctx:
                 f.write(cfg_text)
         else:
             cfgp = os.path.join(os.path.dirname(path), cfg or (module + ".cfg"))
-        cmd += ["-workers", str(workers), "-coverage", "1", "-config", cfgp, path]
+        cmd += ["-workers", str(workers)] + (["-coverage", "1"] if coverage else []) + ["-config", cfgp, path]
         t = time.time()
         e = dict(os.environ)
         if env:
@@ -137,6 +137,18 @@ class Ctx:
         self.steps.append("MC %s: %d distinct states, %d generated, %.1fs" % (name, dist, gen, time.time() - t))
         shutil.rmtree(wd, ignore_errors=True)
         return out if want_output else {"distinct": dist, "generated": gen}
+
+    def vectors_from(self, out, path):
+        """Extract the JSON vectors TLC printed (`<<"VEC", "<json>">>`) into an ndjson file."""
+        n = 0
+        with open(path, "a") as f:
+            for line in out.splitlines():
+                if line.startswith('<<"VEC", "') and line.endswith('">>'):
+                    js = line[len('<<"VEC", "'):-3]
+                    js = js.replace('\\"', '"').replace("\\\\", "\\")
+                    f.write(js + "\n")
+                    n += 1
+        return n
 
     def tlc_trace(self, module, trace_files, cfg="Trace.cfg", timeout=1800, procs=8, heap="3g"):
         """Validate recorded traces (one TLC process per file, -workers 1, depth-first queue).
